@@ -235,6 +235,7 @@ Viol(st, tok) ==
   CASE k = "xmldecl" ->
          First(<<If(ph # "start", "LateXmlDecl"),
                  If(~IsVersionNum(tok.ver), "BadXmlDecl"),
+                 If("lex" \in DOMAIN tok /\ tok.lex = "mismatch", "BadXmlDecl"),
                  If(tok.enc # <<>> /\ ~IsEncNameStr(tok.enc), "BadXmlDecl")>>)
     [] k = "ws" ->
          First(<<If(tok.v = <<>> \/ ~AllWs(tok.v), "BadToken"), If(ph = "accept", "AfterEnd")>>)
@@ -308,6 +309,7 @@ TokenSane(tok) ==
   LET k == tok.k
   IN CASE k = "xmldecl" -> LiteralSane(tok.ver) /\ LiteralSane(tok.enc) /\ tok.ver # <<>>
                            /\ tok.sa \in {"yes", "no", "none"}
+                           /\ ("lex" \in DOMAIN tok => tok.lex \in {"ok", "mismatch"})
                            /\ 34 \notin SeqToSet(tok.ver \o tok.enc) /\ 39 \notin SeqToSet(tok.ver \o tok.enc)
        [] k = "ws" -> tok.v # <<>> /\ AllWs(tok.v) /\ tok.v[Len(tok.v)] # 13   \* CR LF never straddles two tokens
        [] k = "comment" -> ScalarSeq(tok.v) /\ ~HasSub(tok.v, <<45, 45, 62>>)
